@@ -89,6 +89,14 @@ check('C17', 'proof',
       'dunder attribute access, unauthorised names or calls. Bounded: every builtin x plausible arguments through safe_eval and through real grammars under an audit hook.',
       'Trusted: pyvc, z3, ast.walk yields every node (assumed), CPython eval with empty __builtins__. Attribute traversal inside str.format is a stated limit (known finding).',
       'contract-based deductive verification (pyvc) + bounded audit-hook runs', '3/C17')
+check('C02', 'other',
+      'Bounded stand-in (the generator is a printer of python source text; its output is outside what a pyvc contract can state): ~500 description grammars '
+      '(sampled, a naming matrix, every cut grammar) x all strings up to length 4 over a 4-letter alphabet x 7 parse-time settings, plus ~90 grammar texts with directives, '
+      'rule parameters, @name, upper-case rules, keyword-like rule names x 13 settings: the generated source compiles, and model and generated parser agree on '
+      'accept/reject, AST, exception class and action calls. The runtime primitives the generated code calls (group, nameset, option, closure, ...) carry proved contracts under C01/C05.',
+      'Bounds per run in the evidence. Four differences are known findings (names pre-defined by sequences only, rule names colliding after python-safe renaming, '
+      'value of a named void/lookahead, internal override key).',
+      'bounded differential checking of model vs generated parser (labelled bounded)', '3/C02')
 check('C13', 'other',
       'Bounded stand-in: for grammar models over the full expression language (from text, JSON, the ANTLR translator), every term kind in every context and token/pattern/constant '
       'texts over an adversarial alphabet up to the stated length: compile(pretty(m)) accepts the same inputs with equal ASTs, keeps directives/keywords/params/decorators, pretty is a '
